@@ -22,7 +22,7 @@ from vf.trace import make_tracing_solver, run_solve
 
 ID = "C19"
 LEVEL = "exploration"
-BUDGET = {"quick": 60, "thorough": 1500}
+BUDGET = {"quick": 60, "thorough": 6000}
 RULE = (
     "case = (well-scaled spec, start, corruption target/position/magnitude); three solves per case. "
     "distinct = SHA-256 of the case; non-trivial = n >= 2 and (m >= 1 for Jacobian/Hessian targets), "
